@@ -294,7 +294,7 @@ val zmem : z -> z list -> bool
 type consts = { k_status0 : z; k_iter0 : z; k_dt_status : z; k_dt_iter : 
                 z; k_dt_obj : z; k_dt_float : z; k_false : z; k_engine : 
                 z; k_default : z; k_linker_name : z; k_dt_trace_values : 
-                z; k_pyfloat : z }
+                z; k_pyfloat : z; k_single_memo : bool }
 
 type iargs = { ia_span : src; ia_n : nat; ia_strict : z; ia_dtype : z;
                ia_adt : z; ia_default : z; ia_engine : z;
@@ -330,6 +330,11 @@ val val_src : val0 -> src
 val arr_len : heap -> loc -> path -> nat
 
 val dc_entries : heap -> (z * val0) list -> (heap * (z * val0) list) option
+
+val dc_entries1 : heap -> (z * val0) list -> (heap * (z * val0) list) option
+
+val dc_entries_pol :
+  bool -> heap -> (z * val0) list -> (heap * (z * val0) list) option
 
 val dict_update : (z * val0) list -> (z * val0) list -> (z * val0) list
 
@@ -386,6 +391,7 @@ type op =
 | OSubListAppend of z * z * z
 | OSubStatus of z * z * z * z
 | OPathAppend of path * z
+| OAliasAttr of z * path
 
 val is_empty_trace : heap -> loc -> z -> bool
 
